@@ -33,5 +33,6 @@ func runC05(r *hk.Run) {
 	runH3Frames(r, rng.Fork())
 	runH3Fields(r, rng.Fork())
 	runEncoders(r, rng.Fork())
+	runRequestWriter(r, rng.Fork())
 	runHeaderMap(r, rng.Fork())
 }
